@@ -246,3 +246,70 @@ pub fn record_main(args: &[String]) -> i32 {
     println!("taiko-record: events={} with_bursts={}", lines.len(), converted);
     0
 }
+
+
+/// `taikocolour-replay <scenarios.ndjson> <out.json>`: every hit-type sequence TLC enumerated (MC_TaikoColour) as a native taiko
+/// map; the colour structure the real preprocessor assigns (hook event `taiko_color`) must equal the model's rows.
+pub fn colour_replay_main(args: &[String]) -> i32 {
+    silence_panics();
+    let scenarios = read_ndjson(&args[0]);
+    let n = scenarios.len();
+    let res = par_map(n, n_threads(), |i| {
+        let sc = &scenarios[i];
+        let types: Vec<String> = sc["types"].as_array().map(|a| a.iter().map(|t| t.as_str().unwrap_or("").to_string()).collect()).unwrap_or_default();
+        let mut s = String::from("osu file format v14\n\n[General]\nMode: 1\n\n[Difficulty]\nHPDrainRate:5\nCircleSize:4\nOverallDifficulty:5\nApproachRate:5\nSliderMultiplier:1.4\nSliderTickRate:1\n\n[TimingPoints]\n0,500,4,2,0,100,1,0\n\n[HitObjects]\n");
+        // the first two objects have no difficulty object
+        let mut t = 1000;
+        for k in 0..2 {
+            let _ = writeln!(s, "256,192,{t},1,{}", [0, 8][k]);
+            t += 200;
+        }
+        for (k, ty) in types.iter().enumerate() {
+            match ty.as_str() {
+                "Center" => { let _ = writeln!(s, "256,192,{t},1,{}", [0, 4][k % 2]); }
+                "Rim" => { let _ = writeln!(s, "256,192,{t},1,{}", [8, 2, 10][k % 3]); }
+                _ if k % 2 == 0 => { let _ = writeln!(s, "256,192,{t},12,0,{}", t + 60); }
+                _ => { let _ = writeln!(s, "100,192,{t},2,0,L|300:192,1,40"); }
+            }
+            t += 200;
+        }
+        let mut out: Vec<Value> = Vec::new();
+        let mut bad = |what: &str, exp: String, obs: String| {
+            out.push(json!({"what": what, "scenario_index": i, "types": types, "osu_text": s, "expected": exp, "observed": obs}));
+        };
+        let Ok(map) = Beatmap::from_bytes(s.as_bytes()) else {
+            bad("machinery:decode", "ok".into(), "error".into());
+            return out;
+        };
+        rosu_pp::verif::trace::start();
+        let r = guarded(|| rosu_pp::Difficulty::new().calculate(&map));
+        let raw = rosu_pp::verif::trace::take();
+        if let Err(p) = r {
+            bad("panic", "no panic".into(), p);
+            return out;
+        }
+        let Some(ev) = raw.iter().filter(|e| e.contains("taiko_color")).filter_map(|e| serde_json::from_str::<Value>(e).ok()).next() else {
+            if !types.is_empty() {
+                bad("machinery:no_event", "a taiko_color event".into(), format!("{} events", raw.len()));
+            }
+            return out;
+        };
+        let rows = ev["objects"].as_array().cloned().unwrap_or_default();
+        let got_types: Vec<String> = rows.iter().map(|r| r[0].as_str().unwrap_or("").to_string()).collect();
+        if got_types != types {
+            bad("machinery:types", format!("{types:?}"), format!("{got_types:?}"));
+            return out;
+        }
+        let got: Vec<Vec<i64>> = rows.iter().map(|r| (1..7).map(|c| r[c].as_i64().unwrap_or(-9)).collect()).collect();
+        let want: Vec<Vec<i64>> = sc["rows"].as_array().map(|a| a.iter().map(|r| r.as_array().map(|x| x.iter().map(|v| v.as_i64().unwrap_or(-8)).collect()).unwrap_or_default()).collect()).unwrap_or_default();
+        if got != want {
+            bad("colour_structure", format!("{want:?}"), format!("{got:?}"));
+        }
+        out
+    });
+    let mism: Vec<Value> = res.into_iter().flatten().collect();
+    let machinery = mism.iter().filter(|m| m["what"].as_str().unwrap_or("").starts_with("machinery")).count();
+    std::fs::write(&args[1], serde_json::to_string_pretty(&json!({"scenarios": n, "mismatches": mism.len(), "machinery": machinery, "records": mism.iter().take(12).collect::<Vec<_>>()})).unwrap()).unwrap();
+    println!("taikocolour-replay: scenarios={} mismatches={}", n, mism.len());
+    0
+}
